@@ -32,6 +32,8 @@ from ..module import Module
 from ..qualname import qualname as module_qualname
 from ..external_module import ExternalModule, ExternalModuleCall
 from ..instance import Instance
+from ..instantiable import io as instantiable_io
+from ..elab.helpers.width import width as connection_width
 from ..signal import Signal, Port, PortDir
 from ..slice import Slice
 from ..concat import Concat
@@ -201,6 +203,10 @@ class ProtoExporter:
             pmod = self.export_module(inst.of)
             # Give it a Reference to its Module
             pinst.module.local = pmod.name
+            # The Module which holds `inst` had its connections checked when it was elaborated, against what `inst` referred to then.
+            # `inst.of` can be assigned since - hierarchy walkers do - and the Module which holds it is not elaborated again.
+            # What is written is the Instance as it stands: check it against the ports of the Module it refers to now.
+            self.check_connections(inst)
         elif isinstance(inst.of, (PrimitiveCall, ExternalModuleCall)):
             call = inst.of
 
@@ -268,6 +274,24 @@ class ProtoExporter:
             pinst.connections.append(pconn)
 
         return pinst
+
+    def check_connections(self, inst: Instance) -> None:
+        """Raise a `RuntimeError` unless `inst` connects each port of its target once, at the port's width."""
+
+        ports = instantiable_io(inst.of)
+        bad = [f"missing connection to port `{p}`" for p in ports if p not in inst.conns]
+        for pname, conn in inst.conns.items():
+            port = ports.get(pname, None)
+            if port is None:
+                bad.append(f"connection to non-existent port `{pname}`")
+            elif not isinstance(conn, (Signal, Slice, Concat)):
+                bad.append(f"invalid connection {conn} to port `{pname}`")
+            elif not isinstance(port, Signal) or port.width != connection_width(conn):
+                bad.append(f"connection {conn} to port `{pname}` does not have its width")
+        if bad:
+            parent = getattr(inst, "_parent_module", None)
+            msg = f"Invalid connections of Instance `{inst.name}` of {inst.of} in {parent}: {bad}"
+            raise RuntimeError(msg)
 
 
 def export_port(port: Port) -> vckt.Port:
